@@ -23,7 +23,7 @@ CHECKS = {
               "max/min/sum characterised as the textbook operations. Reducers are re-translated from the source on every run and proved "
               "equal to the model (Bridge). The loops, dispatch and masks are tied by exhaustive small-scope differential execution of "
               "groupby_lib.groupby.numba.group_* against the compiled model and the specification."),
-        note="Assumes codes < ngroups, in-range positions, small-integer float values, no int64 partial sum equal to the int64 minimum; prange race-freedom not modelled.",
+        note="source_loop_shape: the AST of _group_by_reduce is matched on every run against the loop shape the model stands for (own-slot update, row order, zero counts, negative-key guard). Assumes codes < ngroups, in-range positions, small-integer float values, no int64 partial sum equal to the int64 minimum; prange race-freedom not modelled.",
         technique="Lean 4 proof (fold/merge homomorphism by induction) + source-to-Lean translation of the scalar reducers + exhaustive small-scope correspondence",
         design="§7 C04",
     ),
@@ -78,7 +78,7 @@ CHECKS["C08"] = dict(
           "last cumulative value of a group equals the group reduction; a null makes the non-skipping float sum null from there on. Reducers come from "
           "the source via the translator+Bridge; the loop is tied by correspondence on numba.cum* and GroupBy.cum* (all dtype classes, ints beyond 2^53, "
           "datetime/timedelta with NaT, exact dtype checks)."),
-    note="The read-back of the running value from the output array is modelled as the group's running partial (each position is written once, in its own iteration); cummin/cummax with skip_na=False are compared with the model only (the property does not define them).",
+    note="source_loop_shape: the AST of _cumulative_reduce is matched on every run against the loop shape the model cumGo stands for (running row counter, read of the previous output position of the group, masked pass-through). The read-back of the running value from the output array is modelled as the group's running partial (each position is written once, in its own iteration); cummin/cummax with skip_na=False are compared with the model only (the property does not define them).",
     technique="Lean 4 proof (structural induction over the row list, any starting state) + reducer translation + differential correspondence",
     design="§7 C08",
 )
